@@ -5,7 +5,7 @@ The reference key-value model of the `Storage` contract
 C02/C07/C01 uses as its store.
 
 A store maps a keyspace to its metadata rows `id ↦ (ts, tombstone?)` and its documents
-`id ↦ bytes`; `touched` is the set of keyspace names any call has ever mentioned (the backends
+`id ↦ bytes`; `touched` is the set of keyspace names a MUTATING call has ever named (a read does not bring a keyspace into existence: fix D27) (the backends
 legitimately differ on whether a merely-read keyspace is listed).
 
 No imports: linked into `dcdriver`.
